@@ -125,6 +125,9 @@ class ExprMixin:
             return k
         if isinstance(k, FStr) and all(isinstance(p, str) for p in k.parts):
             return ''.join(k.parts)
+        if isinstance(k, FStr):
+            # computed (not statically known) member name: distinct from every literal key
+            return ('$computed_key', self.fstr_as_u(k).sexpr())
         raise EngineError(f'symbolic dict key {k!r} in concrete dict')
 
     def ev_JoinedStr(self, e, st):
